@@ -1,4 +1,135 @@
 import OsloModel.Proto
+import OsloModel.Version
+open Oslo Oslo.Version Oslo.Proto
 
--- stub: replaced by the real driver of this property group
-def main : IO Unit := Oslo.Proto.serve (fun _ => "bad-request")
+/-- the abstract version value on the wire: (dense rank of packaging's key, major) -/
+abbrev WV := Nat × Nat
+
+/-- dictionary `hexstr=rank:major;hexstr=I;…` ("-" = empty): outcome of `Version(s)` -/
+def parseDict (s : String) : Option (List (List Char × Option WV)) :=
+  if s = "-" then some [] else
+  (s.splitOn ";").mapM fun item =>
+    match item.splitOn "=" with
+    | [k, v] =>
+      match unhexChars k with
+      | none => none
+      | some key =>
+        if v = "I" then some (key, none) else
+        match v.splitOn ":" with
+        | [r, m] =>
+          match r.toNat?, m.toNat? with
+          | some r, some m => some (key, some (r, m))
+          | _, _ => none
+        | _ => none
+    | _ => none
+
+def lookupDict (d : List (List Char × Option WV)) (s : List Char) : Option (Option WV) :=
+  match d.find? (fun kv => kv.1 = s) with
+  | some kv => some kv.2
+  | none => none
+
+def wirePep (d : List (List Char × Option WV)) : Pep WV where
+  parse s := match lookupDict d s with
+    | some (some v) => some v
+    | _ => none
+  major v := v.2
+  lt a b := a.1 < b.1
+  le a b := a.1 ≤ b.1
+  eq a b := a.1 == b.1
+  gt a b := a.1 > b.1
+  ge a b := a.1 ≥ b.1
+  ne a b := a.1 != b.1
+
+def showErr : Err → String
+  | .valueError => "ValueError" | .invalidVersion => "InvalidVersion"
+  | .typeError => "TypeError" | .keyError => "KeyError"
+
+def showInts (l : List Int) : String :=
+  if l.isEmpty then "-" else String.intercalate "," (l.map toString)
+
+def showIntOut : Except Err IntOut → String
+  | .ok (.int v) => s!"int:{v}"
+  | .ok .noneVal => "None"
+  | .error e => showErr e
+
+def showBool (b : Bool) : String := if b then "bool:1" else "bool:0"
+
+/-- version strings the predicate model will hand to `Version(…)` that the dictionary lacks -/
+def missing (d : List (List Char × Option WV)) (ss : List (List Char)) : List (List Char) :=
+  (ss.filter (fun s => (lookupDict d s).isNone)).eraseDups
+
+def needReply (ms : List (List Char)) : String :=
+  "need:" ++ String.intercalate "," (ms.map hexChars)
+
+def parseIntList (s : String) : Option (List Int) :=
+  if s = "-" then some [] else (s.splitOn ",").mapM String.toInt?
+
+def handle : List String → String
+  | ["tuple", s] =>
+    match unhexChars s with
+    | some s =>
+      match toTuple s with
+      | .ok l => "ok:" ++ showInts l
+      | .error e => showErr e
+    | none => "bad-request"
+  | ["int_s", s] =>
+    match unhexChars s with
+    | some s => showIntOut (toInt (.str s))
+    | none => "bad-request"
+  | ["int_t", l] =>
+    match parseIntList l with
+    | some l => showIntOut (toInt (.tuple l))
+    | none => "bad-request"
+  | ["int_o"] => showIntOut (toInt .other)
+  | ["str", n] =>
+    match n.toInt? with
+    | some n =>
+      match toStrInt n with
+      | some s => "str:" ++ hexChars s
+      | none => "diverges"
+    | none => "bad-request"
+  | ["pyint", s] =>
+    match unhexChars s with
+    | some s =>
+      match pyInt s with
+      | some v => s!"int:{v}"
+      | none => "ValueError"
+    | none => "bad-request"
+  | ["compat", r, c, sm, d] =>
+    match unhexChars r, unhexChars c, parseDict d with
+    | some r, some c, some d =>
+      if sm ≠ "0" ∧ sm ≠ "1" then "bad-request" else
+      match missing d [r, c] with
+      | [] =>
+        match isCompatible (wirePep d) r c (sm = "1") with
+        | .ok b => showBool b
+        | .error e => showErr e
+      | ms => needReply ms
+    | _, _, _ => "bad-request"
+  | ["match", p] =>
+    match unhexChars p with
+    | some p =>
+      match matchPiece p with
+      | some (c, v) => "m:" ++ hexChars c ++ ":" ++ hexChars v
+      | none => "nomatch"
+    | none => "bad-request"
+  | ["pred", p, v, d] =>
+    match unhexChars p, unhexChars v, parseDict d with
+    | some p, some v, some d =>
+      let asked := v :: (splitOn ',' p).filterMap (fun piece => (matchPiece piece).map (·.2))
+      match missing d asked with
+      | [] =>
+        let P := wirePep d
+        match mkPredicate P p with
+        | .error e => "init:" ++ showErr e
+        | .ok pred =>
+          let wb := "\tconds=" ++ (if pred.isEmpty then "-" else
+            String.intercalate "," (pred.map fun cw => hexChars cw.1 ++ ":" ++ toString cw.2.1))
+          match satisfiedBy P pred v with
+          | .ok b => showBool b ++ wb
+          | .error e => "sat:" ++ showErr e ++ wb
+      | ms => needReply ms
+    | _, _, _ => "bad-request"
+  | _ => "bad-request"
+
+def main : IO Unit := serve handle
